@@ -271,9 +271,18 @@ func addRecordToAggregations(grpReq *structs.GroupByRequest, timeHistogram *stru
 			aggsKeyBufIdx += 8
 
 			// Get timechart's group by col val, each different val will be a bucket inside each time range bucket
-			if byFieldCnameKeyIdx != -1 {
-				rawVal, err := multiColReader.ReadRawRecordFromColumnFile(byFieldCnameKeyIdx,
-					blockNum, recNum, qid, isTsCol)
+			if byField != "" {
+				// A record without a value for the by field goes to the same series whether the
+				// column is backfilled for it or absent from the whole block or segment.
+				rawVal := sutils.VALTYPE_ENC_BACKFILL
+				var err error
+				if byFieldCnameKeyIdx != -1 {
+					rawVal, err = multiColReader.ReadRawRecordFromColumnFile(byFieldCnameKeyIdx,
+						blockNum, recNum, qid, isTsCol)
+					if err == nil && len(rawVal) == 0 {
+						rawVal = sutils.VALTYPE_ENC_BACKFILL
+					}
+				}
 				if err != nil {
 					nodeRes.StoreGlobalSearchError(fmt.Sprintf("addRecordToAggregations: Failed to get key for column %v", byField), log.ErrorLevel, err)
 				} else {
